@@ -148,7 +148,7 @@ func c03(r *rng, tier string, o *out) {
 		n = 40000
 	}
 	emit := func(line string, nontrivial bool, tag string) {
-		impl, viol := c03run(line)
+		impl, viol := runCase("C03", line)
 		idx := o.emit(line, impl, nontrivial)
 		o.count(tag)
 		for _, v := range viol {
